@@ -292,7 +292,9 @@ theorem pStep_ic (frags : List Frag) (ig : Bool) (fid p : Nat) (rest : PState) (
         else ⟨some (fid, p), true⟩ :: rest),
        (icOut ns frags e fid p).2) := by
   simp only [pStep, he, hm, Bool.false_eq_true, if_false, if_true, Bool.not_true, Bool.false_and, icResult, icOut]
-  split <;> simp
+  generalize icLoop frags e ns (frags.length + 1) fid p = r
+  obtain ⟨r1, r2, r3, r4⟩ := r
+  cases r4 <;> by_cases h : (r1 + 1 == frags.length && r2 == r3) = true <;> simp [h]
 
 /-- the first event when the first non-empty fragment is entered through
     `descendant-or-self::` (a leading `//`) -/
